@@ -31,6 +31,8 @@ type C08Plan struct {
 	LateWants []int `json:"late_wants,omitempty"`
 	DelRef    int   `json:"del_ref,omitempty"`
 	AddRef    int   `json:"add_ref,omitempty"`
+	// TablesFirst: ask for the tables before the commits (an upload-pack server negotiates tables first)
+	TablesFirst bool `json:"tables_first,omitempty"`
 }
 
 func init() {
@@ -101,6 +103,7 @@ func init() {
 				}
 				p.Haves = append(p.Haves, batch)
 			}
+			p.TablesFirst = r.Chance(0.4)
 			if p.Fault == nil && len(p.Haves) >= 2 && r.Chance(0.25) {
 				// the refs change between the first and the second request, and the second request brings further wants
 				if r.Chance(0.6) {
@@ -424,6 +427,21 @@ func execC08(t *testing.T, raw json.RawMessage, res *Result) {
 			res.Violate("unreachable-want-accepted", "wants %v (refs %v, shallow %v) include a commit not reachable from any ref or without its table, yet negotiation succeeded", p.Wants, p.Refs, p.NoTable)
 			return
 		}
+		var tablesEarly map[string]struct{}
+		if p.TablesFirst {
+			te, terr := f.TablesToSend()
+			if terr != nil && p.Fault != nil && p.Fault.Fired > 0 && !faultRetried {
+				faultRetried = true
+				res.fault("store_read_error", 1)
+				te, terr = f.TablesToSend()
+			}
+			if terr != nil {
+				res.Violate("process-error", "TablesToSend: %v", terr)
+				return
+			}
+			tablesEarly = te
+			res.probe("tables_asked_before_commits", 1)
+		}
 		commits, err := f.CommitsToSend()
 		if err != nil && p.Fault != nil && p.Fault.Fired > 0 && !faultRetried {
 			faultRetried = true
@@ -439,6 +457,10 @@ func execC08(t *testing.T, raw json.RawMessage, res *Result) {
 		if err != nil {
 			res.Violate("process-error", "TablesToSend: %v", err)
 			return
+		}
+		if tablesEarly != nil {
+			// what the server was told before it listed the commits is what it negotiates and sends
+			tables = tablesEarly
 		}
 		if w.Steps-before > budget {
 			res.Violate("step-budget", "negotiation+listing used %d store reads (budget %d for %d commits); %d commits listed", w.Steps-before, budget, n, len(commits))
